@@ -145,6 +145,27 @@ type listOp[T comparable] struct {
 	i, j int
 	vs   []T
 	cmp  NamedCmp[T]
+	// Sort: 0 = the comparator as it is, 1 = wrapped by the closure factory,
+	// 2 = wrapped, followed at once by a second Sort with the reversed wrapped one
+	again int
+}
+
+// checkSorted validates the list against the specification's set of answers
+// after Sort (ties may be ordered either way by an unstable sort), then
+// resynchronises the model.
+func (m *SeqMon[T]) checkSorted(cm NamedCmp[T]) {
+	c := m.c
+	got := m.L.Values()
+	if !sameMultiset(got, m.Model) {
+		c.Fail("sort", "not-a-permutation", "%s.Sort(%s): result %s is not a permutation of %s", m.Name, cm.Name, short(got), short(m.Model))
+	}
+	for k := 1; k < len(got); k++ {
+		if cm.F(got[k-1], got[k]) > 0 {
+			c.Fail("sort", "not-sorted", "%s.Sort(%s): result %s is not sorted at position %d", m.Name, cm.Name, short(got), k)
+		}
+	}
+	m.Model = append(m.Model[:0:0], got...)
+	c.Count("obs:Sort", 1)
 }
 
 func (m *SeqMon[T]) cell(op listOp[T]) {
@@ -214,21 +235,22 @@ func (m *SeqMon[T]) Apply(op listOp[T]) {
 			m.Model[op.i], m.Model[op.j] = m.Model[op.j], m.Model[op.i]
 		}
 	case "Sort":
-		c.Begin(m.Name, "Sort", op.cmp.Name)
-		m.L.Sort(op.cmp.F)
-		got := m.L.Values()
-		// Ties may be ordered either way by an unstable sort: validate the
-		// result against the specification's set of answers, then resync.
-		if !sameMultiset(got, m.Model) {
-			c.Fail("sort", "not-a-permutation", "%s.Sort(%s): result %s is not a permutation of %s", m.Name, op.cmp.Name, short(got), short(m.Model))
+		cm := op.cmp
+		if op.again > 0 {
+			// comparators from one factory (one code pointer, different captures);
+			// two Sorts in a row, the second by another order
+			cm = NamedCmp[T]{Name: cm.Name + "(factory closure)", F: viaFactory(cm.F, false)}
 		}
-		for k := 1; k < len(got); k++ {
-			if op.cmp.F(got[k-1], got[k]) > 0 {
-				c.Fail("sort", "not-sorted", "%s.Sort(%s): result %s is not sorted at position %d", m.Name, op.cmp.Name, short(got), k)
-			}
+		c.Begin(m.Name, "Sort", cm.Name)
+		m.L.Sort(cm.F)
+		m.checkSorted(cm)
+		if op.again == 2 {
+			cm = NamedCmp[T]{Name: op.cmp.Name + "(factory closure, reversed)", F: viaFactory(op.cmp.F, true)}
+			c.Begin(m.Name, "Sort", cm.Name)
+			m.L.Sort(cm.F)
+			m.checkSorted(cm)
+			c.Count("obs:Sort-twice-factory-comparators", 1)
 		}
-		m.Model = got
-		c.Count("obs:Sort", 1)
 	case "Clear":
 		c.Begin(m.Name, "Clear")
 		m.L.Clear()
@@ -278,7 +300,7 @@ func genListOp[T comparable](r *core.R, d *Dom[T], n int, maxN int) listOp[T] {
 	case 6:
 		return listOp[T]{kind: "Swap", i: hostileIndex(r, n), j: hostileIndex(r, n)}
 	case 7:
-		return listOp[T]{kind: "Sort", cmp: d.Cmps[r.Intn(len(d.Cmps))]}
+		return listOp[T]{kind: "Sort", cmp: d.Cmps[r.Intn(len(d.Cmps))], again: r.Intn(3)}
 	case 8:
 		return listOp[T]{kind: "Clear"}
 	case 10:
